@@ -49,3 +49,41 @@ def only_init_package() -> pg.Pkg:
     pkg.inits[("pk", "onlyinit")] = []
     pkg.extra_files["pk/onlyinit/__init__.py"] = '"""Package with nothing but an __init__."""\nVALUE = 1\n'
     return pkg
+
+
+def _user(pkg: pg.Pkg, target_mod: str, cls: str) -> None:
+    pkg.modules.append(pg.Mod(("pk",), "usermod", imports=[f"from {target_mod} import {cls}"], decls=[pg.Fn("consume", [pg.Param("x", cls)], cls)]))
+
+
+def aliased_class_reference() -> pg.Pkg:
+    pkg = pg.Pkg()
+    pkg.modules.append(pg.Mod(("pk", "corepart"), "shapesmod", decls=[pg.Cls("RoundThing", methods=[pg.Fn("area", role="inst", ret="int")])]))
+    pkg.inits[("pk",)] = [pg.Reexport("name", "pk.corepart.shapesmod", "RoundThing", "Circle", "abs")]
+    _user(pkg, "pk.corepart.shapesmod", "RoundThing")
+    return pkg
+
+
+def private_class_reference() -> pg.Pkg:
+    pkg = pg.Pkg()
+    pkg.modules.append(pg.Mod(("pk",), "_hiddenmod", decls=[pg.Cls("ConcealedThing", methods=[pg.Fn("area", role="inst", ret="int")])]))
+    _user(pkg, "pk._hiddenmod", "ConcealedThing")
+    return pkg
+
+
+def whole_module_reexport() -> pg.Pkg:
+    """Module alias re-export of one module (class used elsewhere), star re-export of another (enum used elsewhere)."""
+    pkg = pg.Pkg()
+    pkg.modules.append(pg.Mod(("pk", "corepart"), "shapesmod", decls=[pg.Cls("RoundThing", methods=[pg.Fn("area", role="inst", ret="int")]), pg.Fn("helperfn")]))
+    pkg.modules.append(pg.Mod(("pk", "corepart"), "shadesmod", decls=[pg.En("ShadeKind", ["UMBERX", "OCHREX"]), pg.Fn("otherfn")]))
+    pkg.inits[("pk",)] = [pg.Reexport("modalias", "pk.corepart.shapesmod", None, "shapes", "abs"), pg.Reexport("star", "pk.corepart.shadesmod", None, None, "abs")]
+    _user(pkg, "pk.corepart.shapesmod", "RoundThing")
+    pkg.modules.append(pg.Mod(("pk",), "usermod2", imports=["from pk.corepart.shadesmod import ShadeKind"], decls=[pg.Fn("consume2", [pg.Param("x", "ShadeKind")], "None")]))
+    return pkg
+
+
+def moved_class_same_module_reference() -> pg.Pkg:
+    pkg = pg.Pkg()
+    m = pg.Mod(("pk", "corepart"), "shapesmod", decls=[pg.Cls("RoundThing", methods=[pg.Fn("area", role="inst", ret="int")]), pg.Fn("measure", [pg.Param("x", "RoundThing")], "int")])
+    pkg.modules.append(m)
+    pkg.inits[("pk", "corepart")] = [pg.Reexport("name", "pk.corepart.shapesmod", "RoundThing", None, "rel")]
+    return pkg
